@@ -253,8 +253,41 @@ func (p *phase) reject(class, name string, err error, pan string, rep func() map
 }
 
 // positives: every prefix of both honest chains verifies (chains of 0..4 contributions).
+// transport: every honest contribution of chain A (and the initial object) decoded from a stream
+// that arrives in pieces must be the same object, with the same byte count, as decoded in one piece:
+// participants of a real ceremony exchange contributions over sockets and pipes.
+func (p *phase) transport() {
+	if p.ops.Reencode == nil {
+		return
+	}
+	objs := append([][]byte{p.init}, p.A...)
+	for k, b := range objs {
+		for pi, pieces := range [][]int{{1}, {3, 1, 7, 2, 5}, {31, 1, 64, 7}, {4096, 13}} {
+			var out []byte
+			var n int64
+			err, pan := safe(func() (e error) { out, n, e = p.ops.Reencode(p.ph, b, pieces); return })
+			p.r.Eval(fmt.Sprintf("%s|%s|fragmented-transport|%d|%d", p.label, p.ph, k, pi), true)
+			p.r.Count(p.ph+".fragmented-decodes", 1)
+			rep := func() map[string]any {
+				return p.replay(map[string]any{"object": k, "pieces": fmt.Sprint(pieces), "bytes": hx(b)})
+			}
+			switch {
+			case pan != "" || err != nil:
+				p.r.Violation("honest-contribution-undecodable-from-fragmented-stream/"+p.ph, fmt.Sprintf("an honest contribution decodes from one piece but not from a stream delivered in pieces of %v bytes: %v %s", pieces, err, pan), rep())
+			case !bytes.Equal(out, b):
+				p.r.Violation("honest-contribution-altered-by-fragmented-stream/"+p.ph, fmt.Sprintf("an honest contribution read from a stream delivered in pieces of %v bytes decodes, without error, to a different object (the next participant / the verifier sees another contribution)", pieces), rep())
+			case n != int64(len(b)):
+				p.r.Violation("fragmented-read-count-wrong/"+p.ph, fmt.Sprintf("ReadFrom reported %d bytes for an encoding of %d bytes (pieces %v)", n, len(b), pieces), rep())
+			default:
+				p.r.Count(p.ph+".fragmented-decodes.identical", 1)
+			}
+		}
+	}
+}
+
 func (p *phase) positives() bool {
 	defer spent(p.ph+"/honest-verification", time.Now())
+	p.transport()
 	ok := true
 	for _, ch := range []struct {
 		n string
